@@ -13,7 +13,7 @@ RULE = ("all multisets of 1-3 member sequences (members = every well-formed set 
         "non-trivial = two members share a (channel, pitch) and overlap or abut")
 SCALE = ('16-120 notes in 2-3 members; a 1-2 note phrase touching / overlapping / preceding the i-th note for EVERY i of a 33/65/129-note piece; 4, 5 and 6 members all sounding one (channel, pitch) at once (nested, staircase, identical; every permutation up to 5 members, all rotations and reversals for 6); one sequence object twice in a family (receiver among its operands, member twice, member beside its copy); operands handed over as tuple / generator / iterator / map / reversed every 6th case; the A-B-A signature pattern on two channels; numpy integer ticks every 5th case')
 ASSUMPTIONS = ["velocity of fused notes is not demanded", "members never carry two different signatures of one kind on one tick"]
-REQUIRED_FLAGS = ["operands_not_a_list", "after_history", "overlap_fused", "nested", "abutting_kept_separate", "identical_notes", "empty_member",
+REQUIRED_FLAGS = ["operands_on_half_ticks", "operands_not_a_list", "after_history", "overlap_fused", "nested", "abutting_kept_separate", "identical_notes", "empty_member",
                   "signature_repeat_dropped", "member_restates_own_signature_after_foreign_change", "different_durations", "permutation_checked", "receiver_nonempty", "five_or_more_members",
                   "short_phrase_into_long_piece", "receiver_among_its_own_operands"]
 
@@ -71,6 +71,9 @@ def units(ctx):
     for i in range(len(small)):
         yield ("self", i)
     yield ("chsig", 0)
+    for k in range(3):
+        yield ("limits", k)
+    yield ("half", 0)
 
 
 def gen_cases(unit, ctx):
@@ -97,6 +100,35 @@ def _gen_cases(unit, ctx):
                 if ph:
                     yield {"members": [{"notes": [list(x) for x in ns], "events": [], "dur": None},
                                        {"notes": [list(x) for x in ph], "events": [], "dur": None}]}
+        return
+    if unit[0] == "limits":
+        # both limits of the piano range and of the MIDI range (and their neighbours) sounding together on neighbouring
+        # channels: every ordered pair of pitches, the two notes overlapping / nested / abutting in time
+        c = (0, 1, 8)[unit[1]]
+        P = [0, 1, 20, 21, 22, 107, 108, 109, 126, 127]
+        for pa in P:
+            for pb in P:
+                for (ia, ib) in (((0, 4), (2, 4)), ((0, 8), (2, 2)), ((0, 4), (4, 4))):
+                    yield {"members": [{"notes": [[ia[0], ia[1], pa, c, 64]], "events": [], "dur": None},
+                                       {"notes": [[ib[0], ib[1], pb, c + 1, 70]], "events": [], "dur": None}]}
+                yield {"members": [{"notes": [[0, 6, pa, c, 64], [3, 6, pb, c + 1, 70]], "events": [], "dur": None},
+                                   {"notes": [[1, 2, pb, c + 1, 9]], "events": [], "dur": 12}]}
+        return
+    if unit[0] == "half":
+        # operands on half ticks (every tick of the description handed over halved, as it is after scale(0.5) without
+        # re-quantising); the observation is doubled again before it is compared
+        p, (c0, c1) = ctx["p"], ctx["ch"]
+        IVO = [(1, 3), (3, 5), (1, 7), (5, 3), (8, 1), (0, 9), (4, 5)]
+        ns = [(o, l, pp, cc, 64) for (o, l) in IVO for (pp, cc) in ((p, c0), (p, c1), (p + 1, c0))]
+        for a in ns:
+            for b in ns:
+                yield {"members": [{"notes": [list(a)], "events": [], "dur": None}, {"notes": [list(b)], "events": [["ts", 3, 3, 4]], "dur": 15}],
+                       "ticktype": "half"}
+        for i in range(0, len(ns) - 2, 2):
+            tri = [ns[i], ns[i + 1], ns[i + 2]]
+            if lib.well_formed(tri[:2]):
+                yield {"members": [{"notes": [list(x) for x in tri[:2]], "events": [["ks", 5, "G"]], "dur": 21},
+                                   {"notes": [list(tri[2])], "events": [], "dur": None}], "ticktype": "half"}
         return
     if unit[0] == "chsig":
         # signature events on different channels: A on one channel, B on another in between, A again on the first
@@ -302,6 +334,8 @@ def check_case(case, ctx):
                 recv, rest = seqs[0], seqs[1:]
                 if mems[perm[0]]["notes"]:
                     R.flags.append("receiver_nonempty")
+            if case.get("ticktype") == "half":
+                R.flags.append("operands_on_half_ticks")
             try:
                 if case.get("opcarrier"):
                     # the same operands handed over as a tuple / generator / iterator / map object / reversed(...)
@@ -318,8 +352,14 @@ def check_case(case, ctx):
                 R.flags.append("permutation_checked")
             for view in ("abs", "rel"):
                 ev, d = o[view]
-                pn, orph, retr, uncl = lib.pair_notes(ev)
                 tag = f"perm {list(perm)} {mode} {view}"
+                if case.get("ticktype") == "half":
+                    dbl = [e[0] * 2 for e in ev] + [d * 2]
+                    if any(x != int(x) for x in dbl):
+                        R.bad("sounding_set_is_not_the_union", f"{tag}: merged events off the half-tick lattice: {ev} duration {d}")
+                        continue
+                    ev, d = [(int(e[0] * 2),) + tuple(e[1:]) for e in ev], int(d * 2)
+                pn, orph, retr, uncl = lib.pair_notes(ev)
                 if orph or retr or uncl:
                     R.bad("merged_ill_formed", f"{tag}: orphans {orph} retriggers {retr} unclosed {uncl}")
                 if lib.roll_of_notes(pn) != want_roll:
